@@ -230,7 +230,7 @@ def compare(res, exp, index, orig_ids, where="<root>"):
 def snapshot(index):
     snap = {}
     for p, n in index.items():
-        snap[p] = (id(n), n.id, n.content_id, tuple((f.name, id(getattr(n, f.name))) for f in dataclasses.fields(n)),
+        snap[p] = (id(n), n.id, n.content_id, NODE_REGISTRY.get(n.id) is n, tuple((f.name, id(getattr(n, f.name))) for f in dataclasses.fields(n)),
                    tuple(tuple(id(x) for x in getattr(n, f.name)) for f in dataclasses.fields(n) if isinstance(getattr(n, f.name), tuple)))
     return snap
 
